@@ -13,7 +13,8 @@
                        `parse_path`, with the `need_start / need_end / implicit_cmd` automaton.
   * `parseWith`      — `PathParser::parse` (fresh parser): runs the loop, then `end(false)` if
                        `need_end`.  The initial value of `need_start` is a parameter
-                       (`parse` = the code as it is: `false`; `parseFixed` = `true`).
+                       (`parse` = the code as it is: `false`; `parseFixed` = with the proposed
+                       patch `fixes/C17-need-start.patch`).
   * numbers          — a number's VALUE is `Num.ofLexeme lexeme` (parameter); the arithmetic the
                        parser does on values (`+`, `-`, the `is_straight_line` test and the arc →
                        quadratic conversion of `lyon_geom`) are fields of `Num` as well.
@@ -437,9 +438,21 @@ def dispatchCmd (N : Num ν) (na : Nat) (cmd : Char) (l0 c0 : Int) (st : St ν) 
 def cmdOf (st : St ν) (s : Src) : Char := if s.cur.isAlpha then s.cur else st.implicit
 def afterCmd (s : Src) : Src := if s.cur.isAlpha then s.adv else s
 
+/-- the command letters that draw or close (everything the `match` accepts except move-to) -/
+def isDrawingCmd (cmd : Char) : Bool :=
+  cmd == 'l' || cmd == 'L' || cmd == 'h' || cmd == 'H' || cmd == 'v' || cmd == 'V' ||
+  cmd == 'q' || cmd == 'Q' || cmd == 't' || cmd == 'T' || cmd == 'c' || cmd == 'C' ||
+  cmd == 's' || cmd == 'S' || cmd == 'a' || cmd == 'A' || cmd == 'z' || cmd == 'Z'
+
+/-- which commands the `need_start` test rejects.  Current code (`fix = false`):
+`cmd != 'm' && cmd != 'M'`.  Proposed fix (`fixes/C17-need-start.patch`, `fix = true`): the
+drawing/close commands only, so that an unknown letter still yields `ParseError::Command`. -/
+def needStartBlocks (fix : Bool) (cmd : Char) : Bool :=
+  if fix then isDrawingCmd cmd else (cmd != 'm' && cmd != 'M')
+
 /-- one iteration of the `while` loop body after the `stop_at` test -/
-def step (N : Num ν) (na : Nat) (st : St ν) (s : Src) : StepOut ν :=
-  if st.needStart && cmdOf st s != 'm' && cmdOf st s != 'M' then
+def step (fix : Bool) (N : Num ν) (na : Nat) (st : St ν) (s : Src) : StepOut ν :=
+  if st.needStart && needStartBlocks fix (cmdOf st s) then
     .fail (.missingMoveTo (cmdOf st s) s.line s.col) st.needEnd (afterCmd s) []
   else dispatchCmd N na (cmdOf st s) s.line s.col st (afterCmd s)
 
@@ -467,14 +480,14 @@ def Result.cons (em : List (Emit ν)) (r : Result ν) : Result ν := { r with ca
 
 /-- the `while !src.finished` loop (entered after a `skip_whitespace`), followed by the clean-up
 of `parse`.  `fuel` bounds the number of iterations; `parseWith` supplies `length + 1`. -/
-def loop (N : Num ν) (na : Nat) (stop : Option Char) : Nat → St ν → Src → Result ν
+def loop (fix : Bool) (N : Num ν) (na : Nat) (stop : Option Char) : Nat → St ν → Src → Result ν
   | 0, _, s => ⟨[], .stuck, s⟩
   | fuel + 1, st, s =>
     if s.fin then ⟨closing st.needEnd s, .ok, s⟩
     else if stop == some s.cur then ⟨closing st.needEnd s, .ok, s⟩
     else
-      match step N na st s with
-      | .cont st' s' em => (loop N na stop fuel st' s'.skipWs).cons em
+      match step fix N na st s with
+      | .cont st' s' em => (loop fix N na stop fuel st' s'.skipWs).cons em
       | .fail e ne s' em => ⟨em ++ closing ne s', .err e, s'⟩
       | .panic s' em => ⟨em, .panic, s'⟩
 
@@ -483,16 +496,18 @@ def St.init (N : Num ν) (needStart : Bool) : St ν :=
     needStart := needStart, prevCubic := none, prevQuad := none, implicit := 'M' }
 
 /-- `PathParser::new().parse(&ParserOptions{num_attributes: na, stop_at: stop}, &mut
-Source::new(inp), output)` with `need_start` initialised to `needStart0`. -/
-def parseWith (needStart0 : Bool) (N : Num ν) (na : Nat) (stop : Option Char) (inp : List Char) :
+Source::new(inp), output)`; `fix = false`: the code as it is; `fix = true`: with
+`fixes/C17-need-start.patch` (`need_start` starts `true`, and the `need_start` test rejects the
+drawing/close commands). -/
+def parseWith (fix : Bool) (N : Num ν) (na : Nat) (stop : Option Char) (inp : List Char) :
     Result ν :=
-  loop N na stop (inp.length + 1) (St.init N needStart0) (Src.new inp).skipWs
+  loop fix N na stop (inp.length + 1) (St.init N fix) (Src.new inp).skipWs
 
 /-- the parser as it is (`let mut need_start = false;`) -/
 def parse (N : Num ν) (na : Nat) (stop : Option Char) (inp : List Char) : Result ν :=
   parseWith false N na stop inp
 
-/-- the parser with the proposed fix (`let mut need_start = true;`) -/
+/-- the parser with the proposed fix -/
 def parseFixed (N : Num ν) (na : Nat) (stop : Option Char) (inp : List Char) : Result ν :=
   parseWith true N na stop inp
 
